@@ -134,6 +134,8 @@ W = [
          input='{"t":"9999-12-31T23:59:59Z","u":"2021-03-01T10:20:30Z"}\n', stdout='{"a":"9999-12-31T23:00:00+00:00","b":"1970-01-01T00:00:00+00:00"}\n'),
     dict(id='fieldless-row-is-its-line', commit='8041d2a', props=['C12', 'C19', 'C18'], query='* | json', input='{"a":1}\n{}\n{"b":2}\n{}\n', args=[],
          stdout='[a=1]\n{}\n[b=2]\n{}\n'),
+    dict(id='printed-line-keeps-trailing-blanks', commit='7f51c1d', props=['C15', 'C02', 'C12'], query='*', input='x  \n\t\ny\t\r\nz', args=[],
+         stdout='x  \n\t\ny\t\nz\n'),
     dict(id='all-infinite-extremum', commit='04d0ab4', props=['C01', 'C08'], query='* | json | min(b/d) as lo, max(0-b/d) as hi | lo > 1000 as big | hi < 0-1000 as small | fields big, small',
          input='{"b":1,"d":0}\n{"b":2,"d":0}\n', stdout='[{"big":true,"small":true}]\n'),
     dict(id='infinite-extremum', commit='4eedbc5', props=['C01', 'C08'], query='* | json | max(b/d) as hi | hi > 1000 as big | fields big', input='{"b":100,"d":2}\n{"b":50,"d":0}\n{"b":30,"d":3}\n',
